@@ -164,7 +164,25 @@ def run(prop, tier, seed, replay, jobs, no_build, t0):
             reqs.append(r)
             idx.append(i)
     if driver_ok and reqs:
-        resps = C.driver_run(reqs)
+        # a request {"multi": [..]} stands for several driver requests; their responses come back as {"ok": [{"tag", "resp"}..]}
+        flat, spans = [], []
+        for r in reqs:
+            if "multi" in r:
+                sub = [dict(x, prop=r["prop"]) for x in r["multi"]]
+                spans.append((len(flat), len(sub), [x.get("tag") for x in sub]))
+                flat.extend(sub)
+            else:
+                spans.append((len(flat), None, None))
+                flat.append(r)
+        fresps = C.driver_run(flat)
+        resps = []
+        for start, cnt, tags in spans:
+            if cnt is None:
+                resps.append(fresps[start])
+            else:
+                part = fresps[start:start + cnt]
+                bad = [x for x in part if "bad" in x]
+                resps.append(bad[0] if bad else {"ok": [{"tag": t, "resp": x} for t, x in zip(tags, part)]})
         for i, resp in zip(idx, resps):
             o = outs[i]
             if "bad" in resp:
